@@ -17,7 +17,10 @@ import numpy as np
 VERIF = os.path.dirname(os.path.dirname(os.path.dirname(os.path.abspath(__file__))))
 REPO = os.environ.get('FFV_REPO', '/repo')
 LEAN = os.path.join(VERIF, 'lean')
-EVID = os.path.join(VERIF, 'evidence')
+# (a run against a scratch worktree — FFV_REPO set, used for seeded changes — must not overwrite the
+# evidence of /repo itself)
+EVID = os.path.join(VERIF, 'evidence') if REPO == '/repo' else '/var/tmp/ffv-evidence-scratch'
+os.makedirs(EVID, exist_ok=True)
 REPLAYS = os.path.join(VERIF, 'replays')
 CORPUS = os.path.join(VERIF, 'corpus')
 ALLOWED_AXIOMS = {'propext', 'Classical.choice', 'Quot.sound'}
@@ -160,9 +163,10 @@ def lean_audit(prop):
     rc, out, err = run(['lake', 'env', 'lean', path], cwd=LEAN, timeout=3600)
     text = out + err
     res = {}
-    for m in re.finditer(r"'([^']+)' depends on axioms: \[([^\]]*)\]", text, re.S):
+    # (declaration names may end in primes: 'FFVerif.C01.cm_entry_norm_le'' depends on axioms: [...])
+    for m in re.finditer(r"'([^'\s]+?'*)' depends on axioms: \[([^\]]*)\]", text, re.S):
         res[m.group(1)] = [a.strip() for a in m.group(2).replace('\n', ' ').split(',') if a.strip()]
-    for m in re.finditer(r"'([^']+)' does not depend on any axioms", text):
+    for m in re.finditer(r"'([^'\s]+?'*)' does not depend on any axioms", text):
         res[m.group(1)] = []
     return rc == 0, res, text
 
@@ -205,6 +209,48 @@ def driver(lines, timeout=3600):
         raise RuntimeError(f'lean driver answered {len(res)} lines for {len(lines)} requests: '
                            + out[:500] + err[:500])
     return res
+
+
+def corr_script(ctx, name, components, timeout=3000):
+    """Run a stand-alone correspondence script `tools/ffv/corr/<name>.py` (real package vs the Lean
+    driver on the same seeded inputs; written together with the model it exercises) and turn its
+    report into obligations. The script prints one line `<component>  max rel deviation <x>` per
+    component (and `MISMATCH <component> <what>` for discrete outputs) and exits 0 iff all agree.
+    Environment handed to it: FFV_REPO, FFV_LEAN, VERIF_SEED, FFV_TIER."""
+    import re as _re
+    path = os.path.join(VERIF, 'tools', 'ffv', 'corr', name + '.py')
+    env = dict(os.environ, FFV_REPO=REPO, FFV_LEAN=LEAN, VERIF_SEED=str(ctx.seed), FFV_TIER=ctx.tier)
+    rc, out, err = run(['/venv/bin/python', path], cwd=os.path.dirname(path), timeout=timeout, env=env)
+    dev, mism = {}, {}
+    for ln in out.split('\n'):
+        m = _re.match(r'^(.+?)\s+max rel deviation\s+(\S+)', ln)
+        if m:
+            try:
+                dev[m.group(1).strip()] = float(m.group(2))
+            except ValueError:
+                dev[m.group(1).strip()] = float('inf')
+        elif ln.startswith('MISMATCH '):
+            parts = ln.split(' ', 2)
+            mism.setdefault(parts[1] if len(parts) > 1 else '?', []).append(ln[:200])
+    seen = set()
+    for c in components:
+        hits = {k: v for k, v in dev.items() if k == c or k.startswith(c)}
+        bad = [k for k, v in hits.items() if not v <= 1e-9] + \
+              [k for k in mism if k == c or k.startswith(c)]
+        seen |= set(hits) | {k for k in mism if k == c or k.startswith(c)}
+        if not hits and not bad:
+            ctx.oblige(f'correspondence:{name}:{c}', 'correspondence', False,
+                       'component not reported by the script: ' + (err or out)[-300:])
+        else:
+            ctx.oblige(f'correspondence:{name}:{c}', 'correspondence', not bad,
+                       '; '.join(f'{k}: {hits.get(k, mism.get(k))}' for k in (bad or list(hits)[:3]))[:300])
+    extra_bad = [k for k, v in dev.items() if k not in seen and not v <= 1e-9] + \
+                [k for k in mism if k not in seen]
+    ctx.oblige(f'correspondence:{name}:script', 'correspondence', rc == 0 and not extra_bad,
+               (f'exit {rc}; ' + '; '.join(extra_bad) + ' ' + (err or '')[-300:]) if (rc or extra_bad)
+               else f'exit 0, {len(dev)} components')
+    ctx.stats.setdefault('corr_scripts', {})[name] = {k: (v if v == v and v != float('inf') else str(v))
+                                                      for k, v in dev.items()}
 
 
 # ------------------------------------------------------------------------------------------------
